@@ -1537,6 +1537,17 @@ def run(ctx):
                               {"kind": "system", "spec": spec_to_json(spec), "failed_theorems": failed,
                                "detail": bad[0][2]})
                 return
+        for _ in range(40):
+            spec = gen_nm_system(r2)
+            try:
+                bad, _st = with_timeout(30, check_nm, spec)
+            except _Timeout:
+                continue
+            if bad:
+                ctx.violation("nm_mcsolve:trajectory-oracle", bad[0][0], bad[0][1],
+                              {"kind": "nm", "spec": spec_to_json(spec), "failed_theorems": failed,
+                               "detail": bad[0][2]})
+                return
 
     vlib.standard_proof_step(ctx, targets, props, search)
     ctx.log("proof step done")
@@ -1990,6 +2001,11 @@ def check_nm(spec):
     a_impl = float(solver._martingale._a_parameter) if hasattr(solver, "_martingale") else None
     if a_impl is not None and abs(a_impl - ref.a) > 1e-9:
         bad.append(("nm-completeness-constant", "a = %r, sum L^dag L gives %r" % (a_impl, ref.a), {}))
+    tot = sum((L.dag() * L).full() for L in solver.ops)
+    if a_impl is not None and np.max(np.abs(tot - a_impl * np.eye(ref.d))) > 1e-8:
+        bad.append(("nm-family-not-complete", "after _check_completeness sum L^dag L = %s is not a*1 "
+                    "with a = %r" % (np.round(tot, 6).tolist(), a_impl), {}))
+        return bad, stats
     if len(solver.ops) != ref.nch:
         bad.append(("nm-completion-operator", "%d operators after completion, expected %d"
                     % (len(solver.ops), ref.nch), {}))
@@ -2371,6 +2387,13 @@ def compare_nmint(ctx, n, rng):
     while len(cases) < n:
         c = gen_case(rng, malformed=False)
         c["opts"]["norm_steps"] = max(c["opts"]["norm_steps"], 5)
+        if len(cases) % 2 == 1:
+            # a channel whose image is below mc_corr_eps but is chosen often:
+            # collapse attempts that are discarded, between recorded ones
+            c["opts"]["mc_corr_eps"] = 0.125
+            c["chan"] = [{"r": 1.0, "s": 0.125, "imag": False},
+                         {"r": 1.0, "s": 1.0, "imag": False}] + c["chan"][:1]
+            c["segs"] = [dict(sg, gamma=max(sg["gamma"], 3.0)) for sg in c["segs"]]
         cases.append((c, gen_mart_case(rng)))
     impls = [run_impl(c, m) for c, m in cases]
     try:
